@@ -306,10 +306,18 @@ def operand(spec):
         return spec["list"]
     if "array" in spec:
         return numpy.array(spec["array"], dtype=spec.get("dtype"))
+    if "polylist" in spec:
+        # a Python list whose entries are 0-d polynomials (each with its own names) or plain numbers
+        return [build(e["poly"]) if "poly" in e else e["num"] for e in spec["polylist"]]
     raise KeyError(spec)
 
 
 def operand_model(spec):
+    if "polylist" in spec:
+        out = numpy.empty(len(spec["polylist"]), dtype=object)
+        for k, e in enumerate(spec["polylist"]):
+            out[k] = (spec_model(e["poly"]) if "poly" in e else from_any(e["num"]))[()]
+        return out
     if "poly" in spec:
         return spec_model(spec["poly"])
     if "num" in spec:
